@@ -1,6 +1,12 @@
 HOOK_COMMITS = []
 NOT_APPLICABLE = {}
 CHECKS = {
+ "C16": {
+  "level": "exploration",
+  "technique": "runtime monitor: tag-encoded inputs (unique x per vertex, values a function of the element tag), coordinate-wise oracle on the merged object live and after re-open, input ApiSnapshot/digest frame check, numpy poison proxy in the merger modules",
+  "text": "Lists of 2-5 Points / Curve / Surface / DrapeModel inputs with random vertex counts, cells that skip the last vertex, leave vertices unused or are unordered, and float/integer vertex/cell data present on some inputs only are merged by the real mergers; the merged vertices must be the inputs' vertices in order, every merged cell must connect the same coordinates as its source cell, every (name, association) data set must be the concatenation in input order with NaN / integer no-data where an input lacks it, drape models must keep every input cell centre (in order) and value with two ghost cells per join, the inputs' public records and stored nodes must be unchanged, and the merged object must read the same from a fresh Workspace. Held on the counted merges only.",
+  "note": "Open known finding C16-cell-offset-nanmax (offset by max index + 1) is reported as KNOWN-FINDING; it cannot be repaired without editing tests/merger_surface_test.py, which asserts that offset.",
+ },
  "C18": {
   "level": "exploration",
   "technique": "runtime monitor: analytic path oracle (independent station directions, pure-Python leg integration) over seeded survey tables; tag-encoded addition histories; numpy poison proxy (uninitialised-read sanitizer) installed in the library modules",
